@@ -7,7 +7,7 @@
    at zero delay that the check runs on the arrays handed to the Rust function. *)
 From Coq Require Import Reals QArith Lra List.
 From SpdVerif Require Import Model.FinSum Model.Hom Proofs.FinSum_lemmas Proofs.Cx_lemmas Proofs.C09_range Proofs.C09_dip
-  Proofs.C09_struct Proofs.C09_exec.
+  Proofs.C09_struct Proofs.C09_exec Gen.HomSrc Proofs.C09_src.
 Local Open Scope R_scope.
 
 (* rate in [0,1] and visibility in [-1,1] at EVERY delay, for every complex array on a square grid with identical axes
@@ -73,6 +73,17 @@ Theorem C09_exec_twin_normed : forall (g : grid R) (f gs : list (cx Q)) (norm : 
   Q2R norm <> 0 -> Q2R (hom_rate_Q0_normed (grid_len g) f gs norm) = hom_rate g (RC f) (RC gs) 0 (Some (Q2R norm)).
 Proof. exact hom_rate_Q0_normed_correct. Qed.
 
+(* the functions translated from src/spdc/hom.rs on this run (Gen/HomSrc.v: summand closure, phase factor, normalisation,
+   default norm, argument order of the series) are the model the theorems above are about *)
+Theorem C09_source_is_model : forall g f gs tau norm taus,
+  src_hom_rate g f gs tau norm = hom_rate g f gs tau norm /\ src_hom_rate_series g f gs taus = hom_rate_series g f gs taus.
+Proof. exact (fun g f gs tau norm taus => conj (src_hom_rate_eq g f gs tau norm) (src_hom_rate_series_eq g f gs taus)). Qed.
+
+Theorem C09_source_range : forall n g f gs tau,
+  square_sym n g -> (forall k, (k < n * n)%nat -> gs k = transpose_arr n f k) -> 0 < jsi_norm ROps (n * n) f ->
+  0 <= src_hom_rate g f gs tau None <= 1.
+Proof. exact src_hom_rate_range. Qed.
+
 (* ---- non-vacuity *)
 Example C09_nonvacuous_grid : square_sym 3 (sym_grid 3 1 2).
 Proof. repeat split. Qed.
@@ -95,5 +106,7 @@ Print Assumptions C09_series.
 Print Assumptions C09_setup_is_array_level.
 Print Assumptions C09_setup_exchanged_is_transpose.
 Print Assumptions C09_setup_range.
+Print Assumptions C09_source_is_model.
+Print Assumptions C09_source_range.
 Print Assumptions C09_exec_twin.
 Print Assumptions C09_exec_twin_normed.
